@@ -164,7 +164,7 @@ class Concretiser:
             s = "%020x%04x" % (rng.getrandbits(80), idn % 65536)
             node, tok = ('str', s), s
         elif cls == "b64":
-            raw = bytes(rng.getrandbits(8) for _ in range(14)) + idn.to_bytes(4, "big")
+            raw = bytes(rng.getrandbits(8) for _ in range(12)) + idn.to_bytes(4, "big")      # a 16-byte UUID payload
             if v and rng.random() < 0.5:
                 raw += bytes(rng.getrandbits(8) for _ in range(rng.randint(1, 40)))
             s = base64.b64encode(raw).decode()
